@@ -24,7 +24,7 @@ PROPS = {
         not_decided="identity of every object after arbitrary toggle sequences"),
     "C06": dict(
         rules=["R-ZIP", "R-TXN:date", "R-SIMDATE", "R-LOCAL", "R-TZREPLACE", "R-CACHE:update", "R-LATEBIND:update"],
-        decided="twin pairing lists are built in lockstep and every pair is linked; rejections (naive date, outside period) precede any mutation; the filter keeps hours >= the date; naive local-time indexes are localised with the pattern's zone; no aware date is re-labelled with .replace(tzinfo=); no normal exit skips the modelled-period test; a cached localised index is keyed by its time zone too; the filter compares timestamps with the date (a cut by position is reported); twin links have a single writer",
+        decided="twin pairing lists are built in lockstep and every pair is linked; rejections (naive date, outside period) precede any mutation; the filter keeps hours >= the date; naive local-time indexes are localised with the pattern's zone; no aware date is re-labelled with .replace(tzinfo=); no normal exit skips the modelled-period test; a cached localised index is keyed by its time zone too; the filter compares timestamps with the date (a cut by position is reported); twin links have a single writer; the methods that decide what is cut at the date look at the new values of the changes too (F21, known finding)",
         not_decided="equality with the really-updated model; 'no hour before the date'"),
     "C07": dict(
         rules=["R-OPREC", "R-OPPAR", "R-INPLACE", "R-LABEL", "R-SUMMARY", "R-PAREN", "R-VALUESTORE", "R-WRITE", "R-PARENT-USED", "R-CACHE:explainable", "R-CHAIN", "R-PUREVIEW", "R-EDGE", "R-TRUTHY", "R-LATEBIND:explainable"],
